@@ -20,6 +20,11 @@ pub fn dynamic_type_tokinizer(tokinizer: &mut Tokinizer) {
         for (type_name, type_items) in tokinizer.config.types.iter() {
             for (_, dynamic_type) in type_items.iter() {
                 for rule_tokens in dynamic_type.parse.iter() {
+                    /* A pattern without any token never matches */
+                    if rule_tokens.is_empty() {
+                        continue;
+                    }
+
                     let total_rule_token       = rule_tokens.len();
                     let mut rule_token_index   = 0;
                     let mut target_token_index = 0;
